@@ -108,6 +108,7 @@ func C05() int {
 			c.Sample(map[string]any{"flags": sn.Flags.String(), "input": short(sn.Item.Raw, 500), "output": short(sn.Res.Out, 500)})
 		}
 	})
+	optionHistory(s, c, items)
 	reportBatchAnomalies(c)
 	raceVerdict(s, c)
 	c.Set("leaves_by_class_and_slot_family", cells)
